@@ -178,7 +178,7 @@ func c0103Run(prop string, oracles []procOracle, nontriv func(*PDrv) bool) func(
 			fps = []int{1, 2, 3}
 			L, Ld, D = 15, 12, 2
 		}
-		r.Rule = fmt.Sprintf("every event string over {1=motion frame, 0=still frame} of length %d (both entry points ProcessFrame and Process), and every string of length %d with at most %d deviations from {B=bad frame, R=camera reset, 1d=disk check refused, 1s=file creation refused, 1c5=window closed}, for every configuration of the lattice fps x preview-secs{0,1,2} x trigger-frames{0..3} x min-secs{0,1,2} x max-secs{min..min+2} with ring capacity >= 1; motion bits are produced through the real detector (beacon pixel), observed MotionDetected callbacks are the ground truth. Non-trivial = execution with at least one recording (two for C01).", L, Ld, D)
+		r.Rule = fmt.Sprintf("every event string over {1=motion frame, 0=still frame} of length %d (both entry points ProcessFrame and Process), and every string of length %d with at most %d deviations from {B=bad frame, R=camera reset, 1d=disk check refused, 1s=file creation refused, 1c5=window closed}, plus an explicit-state search to a FIXPOINT of canonical processor states over the same alphabet (<=2 deviations per history) - covering streams of any length - for every configuration of the lattice fps x preview-secs{0,1,2} x trigger-frames{0..3} x min-secs{0,1,2} x max-secs{min..min+2} with ring capacity >= 1; motion bits are produced through the real detector (beacon pixel), observed MotionDetected callbacks are the ground truth. Non-trivial = execution with at least one recording (two for C01).", L, Ld, D)
 		r.Bounds["fps"] = fps
 		r.Bounds["depth_plain"] = L
 		r.Bounds["depth_with_deviations"] = Ld
@@ -188,6 +188,20 @@ func c0103Run(prop string, oracles []procOracle, nontriv func(*PDrv) bool) func(
 		jobs = append(jobs, jobsFor(procLattice(fps, "frame", ""), []string{"1", "0"}, nil, L, 0)...)
 		jobs = append(jobs, jobsFor(procLattice(fps, "raw", "day"), []string{"1", "0"}, devRecorder, Ld, D)...)
 		r.Bounds["configurations"] = len(procLattice(fps, "raw", "day"))
+		// fixpoint mode: streams of any length for every configuration of the lattice
+		capStates := 60000
+		if r.Thorough() {
+			capStates = 400000
+		}
+		one := func(d *PDrv) (string, string) {
+			for _, o := range oracles {
+				if s, m := o(d); s != "" {
+					return s, m
+				}
+			}
+			return "", ""
+		}
+		runProcFixpoint(r, "recorder_lattice", procLattice(fps, "raw", "day"), []string{"1", "0"}, devRecorder, 2, nil, one, func(d *PDrv) string { return d.recSummary() }, capStates)
 		runProcJobs(r, jobs, oracles, nontriv)
 	}
 }
@@ -217,7 +231,7 @@ func c04Run(r *ev.Run) {
 			}
 		}
 	}
-	r.Rule = fmt.Sprintf("every event string of length %d over {1,0} with at most %d gate deviations chosen per frame from: disk check refused, file creation refused, both, window clock at start-1ns/start/start+1s/stop-1ns/stop/stop+1s/other day (real window.Window 09:00-17:00, 22:00-06:00 spanning midnight, and no window) and combinations; trigger-frames 0..3; oracle: start iff (no recording active, run>=trigger-frames, window open by own interval arithmetic, disk ok, creation ok). Non-trivial = execution with a refused or successful start.", L, D)
+	r.Rule = fmt.Sprintf("every event string of length %d over {1,0} with at most %d gate deviations chosen per frame from: disk check refused, file creation refused, both, window clock at start-1ns/start/start+1s/stop-1ns/stop/stop+1s/other day (real window.Window 09:00-17:00, 22:00-06:00 spanning midnight, and no window) and combinations; trigger-frames 0..3; plus an explicit-state search to a FIXPOINT with every gate answer available at every frame (gate/motion strings of any length); oracle: start iff (no recording active, run>=trigger-frames, window open by own interval arithmetic, disk ok, creation ok). Non-trivial = execution with a refused or successful start.", L, D)
 	r.Bounds["depth"] = L
 	r.Bounds["max_deviations"] = D
 	r.Bounds["configurations"] = len(cfgs) * 3
@@ -238,6 +252,21 @@ func c04Run(r *ev.Run) {
 			cs = append(cs, c)
 		}
 		jobs = append(jobs, jobsFor(cs, []string{"1", "0"}, dev, L, D)...)
+	}
+	for _, win := range []string{"day", "night", ""} {
+		dev := dayDev
+		if win == "night" {
+			dev = nightDev
+		} else if win == "" {
+			dev = []string{"1d", "1s", "1ds", "0d"}
+		}
+		var cs []PCfg
+		for _, c := range cfgs {
+			c.Window = win
+			cs = append(cs, c)
+		}
+		// gate answers have no memory, so they are plain alphabet symbols here (no deviation bound)
+		runProcFixpoint(r, "gates_window_"+map[string]string{"day": "day", "night": "night", "": "none"}[win], cs, append([]string{"1", "0"}, dev...), nil, 0, nil, oracleC04, func(d *PDrv) string { return d.recSummary() }, 200000)
 	}
 	runProcJobs(r, jobs, []procOracle{oracleC04}, func(d *PDrv) bool {
 		for _, o := range d.log {
@@ -281,7 +310,7 @@ func c03Run(r *ev.Run) {
 		Lmax = 19
 	}
 	cfgs := c03Lattice(r.Thorough())
-	r.Rule = fmt.Sprintf("every motion bit-string (events {1=motion frame, 0=still frame}, real detector) of length min(%d, cap+2*maxF+3) for every configuration of the C03 lattice (fps 1..3, min-secs 0..4(5), max-secs up to min+4(5), preview-secs {0,1}, trigger-frames {0,1,2}); plus the general recorder lattice with <=1 deviation (bad frame, reset, refused starts) to depth 10(12). Oracle: per recording, counted from the trigger frame, stop exactly at the first offset p >= min(q+minF-1, maxF) with q the latest motion offset. Non-trivial = execution with at least one recording.", Lmax)
+	r.Rule = fmt.Sprintf("every motion bit-string (events {1=motion frame, 0=still frame}, real detector) of length min(%d, cap+2*maxF+3) for every configuration of the C03 lattice (fps 1..3, min-secs 0..4(5), max-secs up to min+4(5), preview-secs {0,1}, trigger-frames {0,1,2}); plus the general recorder lattice with <=1 deviation (bad frame, reset, refused starts) to depth 10(12). and an explicit-state search to a FIXPOINT over {1,0} for every configuration of the C03 lattice (motion patterns of any length, incl. configurations whose two-recording horizon exceeds the tree depth). Oracle: per recording, counted from the trigger frame, stop exactly at the first offset p >= min(q+minF-1, maxF) with q the latest motion offset. Non-trivial = execution with at least one recording.", Lmax)
 	r.Bounds["depth_cap"] = Lmax
 	r.Bounds["c03_lattice_configurations"] = len(cfgs)
 	r.Assumptions = []string{"observed MotionDetected callbacks are the ground truth for motion", "configurations whose cap+2*maxF+3 exceeds the depth cap are covered to the cap only (reported per run in depth_limited_configurations)"}
@@ -303,6 +332,11 @@ func c03Run(r *ev.Run) {
 		Ld = 12
 	}
 	jobs = append(jobs, jobsFor(procLattice(fps, "raw", "day"), []string{"1", "0"}, devRecorder, Ld, 1)...)
+	capStates := 60000
+	if r.Thorough() {
+		capStates = 400000
+	}
+	runProcFixpoint(r, "c03_lattice", cfgs, []string{"1", "0"}, nil, 0, nil, oracleC03, func(d *PDrv) string { return d.recSummary() }, capStates)
 	runProcJobs(r, jobs, []procOracle{oracleC03}, hasRecording)
 }
 
